@@ -24,6 +24,11 @@ fn main() {
     if args.len() < 3 {
         usage();
     }
+    if args[1] == "worker" {
+        // gsim worker <engine-key> <tag> <seed> <tier> <offset> <stride> <runs> <cap_s> <outfile>
+        let Some(e) = check::engine_by_key(&args[2]) else { usage() };
+        std::process::exit(runner::worker_main(e.as_ref(), &args[3..]));
+    }
     let mut tier = match std::env::var("VERIF_TIER").as_deref() {
         Ok("thorough") => Tier::Thorough,
         _ => Tier::Quick,
